@@ -6,7 +6,10 @@ id=$1; prop=$2; tier=${3:-quick}
 wt=${WT:-/tmp/wt_verify}; vm=${VM:-/tmp/verif_mut}
 [ -d $wt ] || git -C /repo worktree add -q $wt HEAD
 cd $wt && git checkout -q -- . && git clean -fdq && git apply /verif/seeded/$id/patch.diff || exit 2
-mkdir -p $vm && rsync -a --delete --exclude .git --exclude evidence /verif/ $vm/
+# untracked (in-progress) files of /verif are not part of the machinery under test
+git -C /verif ls-files --others --exclude-standard | sed 's#^#/#' > /tmp/.rsync_excl_$$
+mkdir -p $vm && rsync -a --delete --delete-excluded --exclude .git --exclude evidence --exclude-from=/tmp/.rsync_excl_$$ /verif/ $vm/
+rm -f /tmp/.rsync_excl_$$
 cd $vm && NGO_REPO=$wt ./check $prop --tier $tier > /tmp/mut_$id.$prop.log 2>&1; rc=$?
 grep -c "NOT DISCHARGED" /tmp/mut_$id.$prop.log | sed "s/^/$id $prop: undischarged theorems: /"
 grep "correspondence .*mismatches=[1-9]\|errors=[1-9]" /tmp/mut_$id.$prop.log | cut -c1-160
